@@ -552,9 +552,10 @@ Proof. vm_compute. split; reflexivity. Qed.
 
 (* the translator found nothing in package jen, outside the entry points, that could reach the
    caller's writer or the file system (its whole-package confinement scan; see the header of
-   Props/C10_shape.v) *)
-Lemma io_confined_ok : io_confinement = [].
-Proof. vm_compute. reflexivity. Qed.
+   Props/C10_shape.v), and no place where package jen itself writes the field that
+   `if f.NoFormat` reads ([noformat] is a constant of [run]) *)
+Lemma io_confined_ok : io_confinement = [] /\ io_noformat_writes = [].
+Proof. vm_compute. split; reflexivity. Qed.
 
 Lemma delegates_ok :
   delegate_target (own_body_of n_stmt_render) = Some n_stmt_rwf /\
